@@ -391,7 +391,8 @@ def _real_cls2(cls):
 P._real_cls = _real_cls2
 
 REBIND = dict(int=P.sx_int, bytes=P.sx_bytes, isinstance=lambda o, c: P.sx_isinstance(o, c),
-              round=lambda *a: P.sx_round(*a), sum=lambda *a: P.sx_sum(*a), min=lambda *a: P.sx_min(*a))
+              round=lambda *a: P.sx_round(*a), sum=lambda *a: P.sx_sum(*a), min=lambda *a: P.sx_min(*a),
+              len=lambda x: P.sx_len(x))
 
 
 def rebind(mod, names=None):
